@@ -1,5 +1,5 @@
 # props/C07.py — fixed_vector behaves as a bounded sequence, including copy, move and assignment
-from props.vec_common import forms_cases, large_cases, ctor_cases, before_begin_cases, alias_cases, VecCheck, exhaustive, fault_cases, random_case, malformed_cases, small_alphabet_cases
+from props.vec_common import ctor_fault_cases, forms_cases, large_cases, ctor_cases, before_begin_cases, alias_cases, VecCheck, exhaustive, fault_cases, random_case, malformed_cases, small_alphabet_cases
 
 
 class C07(VecCheck):
@@ -65,6 +65,9 @@ class C07(VecCheck):
         for v, cap in (("P", 70), ("C", 70), ("S", 66), ("Q", 66)) + ((("P", 260), ("C", 130)) if tier == "thorough" else ()):
             for c in large_cases(v, cap):
                 yield c, "large"
+        for v in (("C", "M", "T", "U") if "C06" in __name__ or tier == "thorough" else ("C", "M")):
+            for c in ctor_fault_cases(v, range(1, 4)):
+                yield c, "ctor-throws-" + v
         for c in exhaustive("C", caps, 3, True):
             yield c, "exh3-C"
         for c in small_alphabet_cases("C", caps, 4 if tier == "quick" else 5):
